@@ -407,6 +407,9 @@ def _variants():
         V("decreasing-misses-zero", replace_expr(PE, "Perm.monotone_decreasing", "range(length - 1, -1, -1)", "range(length - 1, 0, -1)"), "fire", "C09-D1"),
         V("from-integer-not-reversed", replace_expr(PE, "Perm.from_integer", "cls.to_standard(reversed(digit_list))", "cls.to_standard(digit_list)"), "fire", "C09-D1"),
         V("from-string-paren-off-by-one", replace_expr(PE, "Perm.from_string", "string[1:-1]", "string[1:]"), "fire", "C09-D1"),
+        V("unrank-float-quotient", replace_stmt("permuta/patterns/perm.py", "Perm._unrank", "division, number = divmod(number, factorial[length - val])", "division, number = int(number / factorial[length - val]), number % factorial[length - val]"), "fire", "C09-X1"),
+        V("mesh-rank-float-power", replace_expr("permuta/patterns/meshpatt.py", "MeshPatt.unrank", "2 ** (len(perm) + 1) ** 2", "int(2.0 ** (len(perm) + 1) ** 2)"), "fire-or-undecided", "C09-X1"),
+        V("unrank-floor-division", replace_stmt("permuta/patterns/perm.py", "Perm._unrank", "division, number = divmod(number, factorial[length - val])", "division, number = number // factorial[length - val], number % factorial[length - val]"), "nofire"),
         V("rank-vals-appended-not-inserted", replace_stmt("permuta/patterns/perm.py", "Perm.rank", "vals.insert(ordered_pos, val)", "vals.append(val)"), "undecided", "C09-S1"),
         V("rank-search-on-set-order", [replace_stmt("permuta/patterns/perm.py", "Perm.rank", "vals: List[int] = []", "vals = list(set(self))"), replace_stmt("permuta/patterns/perm.py", "Perm.rank", "vals.insert(ordered_pos, val)", "")], "fire-or-undecided", "C09-S1"),
         # silent
@@ -668,3 +671,49 @@ def run(ctx: Ctx) -> None:  # noqa: F811
 
 
 FLOORS["C09-S1"] = 1
+
+
+# ------------------------------------------------------------------ X1: ranking arithmetic is exact integer arithmetic
+
+
+EXACT_FUNCS = (("Perm", "rank"), ("Perm", "unrank"), ("Perm", "_unrank"), ("MeshPatt", "rank"), ("MeshPatt", "unrank"), ("Perm", "from_integer"))
+
+
+def rule_x1(ctx: Ctx) -> None:
+    """Ranks exceed 2**53 from length 19 on (19! > 2**53): ranking / unranking must stay in integer arithmetic.  True division,
+    float(), floating constants, math.sqrt/log/floor-of-quotient idioms and round() lose the low digits of a large rank."""
+    repo = ctx.repo
+    for cname, mname in EXACT_FUNCS:
+        f = repo.method(cname, mname)
+        if f is None:
+            continue
+        bad = None
+        for n in walk_no_nested(f.node):
+            if isinstance(n, ast.BinOp) and isinstance(n.op, ast.Div):
+                bad = (n, "true division `/` yields a float")
+            elif isinstance(n, ast.AugAssign) and isinstance(n.op, ast.Div):
+                bad = (n, "true division `/=` yields a float")
+            elif isinstance(n, ast.Constant) and isinstance(n.value, float):
+                bad = (n, f"floating constant {n.value!r}")
+            elif isinstance(n, ast.Call) and isinstance(n.func, ast.Name) and n.func.id in ("float", "round"):
+                bad = (n, f"`{n.func.id}(..)`")
+            elif isinstance(n, ast.Call) and isinstance(n.func, ast.Attribute) and isinstance(n.func.value, ast.Name) and n.func.value.id == "math" and n.func.attr in ("sqrt", "log", "log2", "log10", "exp", "pow", "floor", "ceil", "trunc", "fmod"):
+                bad = (n, f"`math.{n.func.attr}(..)` works on floats")
+            if bad:
+                break
+        if bad:
+            ctx.violation("C09-X1", f, bad[0], f"{cname}.{mname} leaves integer arithmetic ({bad[1]}: `{unparse(bad[0])[:60]}`): ranks of permutations of length 19 and more (and of mesh patterns of length 7 and more) exceed 2**53 "
+                          "and lose their low digits, so rank and unrank stop being inverse")
+        else:
+            ctx.ok("C09-X1", f.where, "integer arithmetic only (no true division, float conversion or math.* float function)", f.node, f)
+
+
+_OLD_RUN_X1 = run
+
+
+def run(ctx: Ctx) -> None:  # noqa: F811
+    _OLD_RUN_X1(ctx)
+    ctx.run(rule_x1, ctx)
+
+
+FLOORS["C09-X1"] = 5
